@@ -40,6 +40,21 @@ def check_one(src: str, mode: str, variant: str = "shipped"):
     except (SyntaxError, ValueError, RecursionError, MemoryError):
         return {"skip": "cpython-rejects"}
     if any(isinstance(n, ast.JoinedStr) for n in ast.walk(ref)):
+        # f-string VALUES are C10's business (known findings there); what is compared here is where each f-string literal
+        # (a JoinedStr that is not a format spec) starts and ends - ASCII sources only (KF-C01-nonascii-columns)
+        if not src.isascii():
+            return {"skip": "fstring"}
+        tree, o = impl.parse_tree(src, mode, variant=variant)
+        if tree is None:
+            return {"skip": "fstring"}
+
+        def spans(t):
+            specs = {id(n.format_spec) for n in ast.walk(t) if isinstance(n, ast.FormattedValue) and n.format_spec is not None}
+            return [(n.lineno, n.col_offset, n.end_lineno, n.end_col_offset) for n in ast.walk(t) if isinstance(n, ast.JoinedStr) and id(n) not in specs]
+
+        a, b = spans(tree), spans(ref)
+        if len(a) == len(b) and sorted(a) != sorted(b):
+            return {"kind": "diff", "diffs": [("JoinedStr spans", sorted(a)[:4], sorted(b)[:4])]}
         return {"skip": "fstring"}
     tree, o = impl.parse_tree(src, mode, variant=variant)
     if tree is None:
@@ -115,6 +130,12 @@ def build_inputs(tier: str):
     for i, s in enumerate(["if a:\n  b\n\\\n  c\n", "def f():\n    x = 1\n\\\n    return x\n", "\u210c = 1\n", "x = \ufb01le\n", "def \u2102(\u2115): return \u2115\n", "import \u1d2c as \uff42\n",
                            "x = 1\ry = 2\n", "x = 1\r", "a\u00b7b = 1\n", "\u2118 = 1\n"]):
         cases.append((f"kfwitness{i}", s, "exec", ["kf-neighbourhood"]))
+    from harness.props import c10 as _c10
+
+    for i, c in enumerate(c for c in _c10.build_inputs(tier) if c[0] in ("pool", "concat-multiline", "spec-then-continuation", "multiline-field")):
+        cases.append((f"fstring-span{i}", c[1], c[2], ["fstring-span"]))
+    for i, s in enumerate(["x = '' f'{y}'\n", "x = f'{y}' ''\n", "print(f'{a}: {b}'\n      '')\n", "x = ('' ''\n f'{y}'\n '')\n", "x = f'' ''\n", "x = 'a' f'{y}' 'b'\n"]):
+        cases.append((f"fstring-span-edge{i}", s, "exec", ["fstring-span"]))
     for i, s in enumerate(corpus.FINAL_LINE_FORMS):
         cases.append((f"finalline{i}", s, "exec", ["final-line"]))
     for i, s in enumerate(corpus.PY_EXPRS):
